@@ -68,8 +68,22 @@ def proof_failure_violation(ctx):
                        'coq_log_tail': tail,
                        'replay': 'cd coq && make Properties_%s.vo' % ctx.pid}, found_input=False)
 
+def lvl_email(keep=(), fields=(2,)):
+    """what a property about decisions / classes / flags sees of an E-line result: the class (rc >= 0), or 'rejected' for a negative code
+    unless the property names that code (keep), plus the chosen further fields (2 = flags, 3 = lpart, 4 = domain)"""
+    def f(ln, o):
+        t = o.split(' ')
+        if not t or not t[0].lstrip('-').isdigit(): return o
+        rc = int(t[0])
+        return (rc if (rc >= 0 or rc in keep) else 'rejected',) + tuple(t[i] for i in fields if i < len(t))
+    return f
+def lvl_facade(ln, o):
+    """what a property about decisions sees of a facade history: the return values (and crashes)"""
+    if 'CRASH' in o or 'ABORT' in o or 'FAULT' in o: return 'CRASH'
+    return tuple(t.split(':')[0] for t in o.split(' ') if t[:1] == 'R')
+
 def corr(ctx, gname, lines, project, lib=None, nontrivial=None, exhaustive=False, note='', describe=None,
-         chunk=2000000, genuine=True):
+         chunk=2000000, genuine=True, level=None):
     """Run one generator's cases through both drivers, compare under [project]
     (a function (case_line, output_line) -> comparable value).  Returns list of mismatches."""
     lib = lib or ctx.snap.lib()
@@ -96,6 +110,10 @@ def corr(ctx, gname, lines, project, lib=None, nontrivial=None, exhaustive=False
         if describe:
             obj['explanation'] = describe(ln, a, b)
         g = genuine(ln, a, b) if callable(genuine) else genuine
+        if g and level is not None and level(ln, a) == level(ln, b):
+            # the outputs differ from the model's only in something this property does not speak about (e.g. which error code
+            # a rejected input gets): the model no longer describes the code, but this case is no counterexample to the property
+            g = False
         if not g:
             obj['note'] = ('the implementation no longer behaves as the model the theorems are about; the relation the property states was evaluated on the '
                            'implementation outputs separately and is reported on its own if it fails')
@@ -401,7 +419,7 @@ def check_C01(ctx):
     el = gens.e_lines(addrs, orc)
     desc = lambda ln, a, b: ('result code of is_<mode>_email (fields: mode tld address) differs from the model of theorems C01_decision_*/C01_composition: '
                              'implementation "%s", model "%s" (rc idn_rc flags)' % (a, b))
-    corr(ctx, 'addresses(is_*_email)', el, first_fields(1), nontrivial=nontriv_addr, describe=desc,
+    corr(ctx, 'addresses(is_*_email)', el, first_fields(1), nontrivial=nontriv_addr, describe=desc, level=lvl_email(fields=()),
          note='all strings <= %d over 12 structural classes, <= %d over a quoted-string alphabet, <= %d over {a . @ [ ] 1 :}; 62-67 octet local parts in 9 word shapes with extra @; '
               'structured local x domain products; 4 modes x tld off/on' % (n, n, n + 1))
     # route 2: the same addresses through the public per-part validators, composed as the property describes (implementation only)
@@ -420,7 +438,7 @@ def check_C01(ctx):
         for m in range(4):
             for t in (0, 1):
                 al.append('A i r%d t%d s %s x f' % (m, t, gens.enc_e(a, orc)))
-    corr(ctx, 'facade(eav_is_email)', al, lambda ln, o: o, nontrivial=lambda ln, o: ':-16' not in o and ':-3,' not in o,
+    corr(ctx, 'facade(eav_is_email)', al, lambda ln, o: o, nontrivial=lambda ln, o: ':-16' not in o and ':-3,' not in o, level=lvl_facade,
          describe=lambda ln, a, b: 'eav_init; rfc=m; tld_check=t; eav_setup; eav_is_email; eav_errstr; eav_free differs from the model: "%s" vs "%s"' % (a, b))
     # wiring relation on the implementation: facade result == direct call of the mode's validator
     c_a, _ = vlib.run_both(lib, ctx.snap, al)
@@ -464,7 +482,7 @@ def check_C07(ctx):
         doms.append(nme + b'.' + b'zz-unlisted')
     orc = vlib.idn_oracle(doms)
     el = gens.e_lines([b'u@' + d for d in doms], orc, tlds=(1,))
-    corr(ctx, 'email(tld on)', el, first_fields(1), nontrivial=nontriv_addr, describe=desc)
+    corr(ctx, 'email(tld on)', el, first_fields(1), nontrivial=nontriv_addr, describe=desc, level=lvl_email(keep=(-26, -23), fields=()))
     # U-label vs A-label: every IDN row of raw.csv in both spellings, through is_utf8_domain and the composers
     import csv
     raw = list(csv.reader(open(os.path.join(ctx.snap.src, 'data', 'raw.csv'), newline='', encoding='utf-8')))[1:]
@@ -499,7 +517,7 @@ def check_C09(ctx):
          nontrivial=lambda ln, o: True, note='0-3 labels of lengths 1-63 and the words example/mailbox/test/com... before each reserved suffix and its one-edit neighbours, several case patterns')
     valid = [d for d in doms if not d.endswith(b'.') and b'..' not in d and not d.startswith(b'.')]
     orc = vlib.idn_oracle(valid)
-    corr(ctx, 'email(tld on)', gens.e_lines([b'u@' + d for d in valid], orc, tlds=(1,)), first_fields(1), describe=desc, nontrivial=nontriv_addr)
+    corr(ctx, 'email(tld on)', gens.e_lines([b'u@' + d for d in valid], orc, tlds=(1,)), first_fields(1), describe=desc, nontrivial=nontriv_addr, level=lvl_email(fields=()))
     return finish(ctx, rule='S cases: is_special_domain; E cases: u@domain with TLD checking on in four modes; projection = verdict / result code',
                   extra_trusted=['libidn2 2.3.3 as IDN oracle'])
 
@@ -522,7 +540,7 @@ def check_C08(ctx):
     masks = sorted(set([0, 2047, 760, -1] + [1 << k for k in range(12)] + [2047 ^ (1 << k) for k in range(11)]))
     al = ['A i r%d t%d m%d s %s x f' % (m, t, mk, gens.enc_e(a, orc)) for a in addrs for m in range(4) for t in (0, 1) for mk in masks]
     corr(ctx, 'policy(real addresses)', al, lambda ln, o: o, describe=lambda ln, a, b: 'facade outcome differs from the model: %s vs %s' % (a, b),
-         nontrivial=lambda ln, o: True)
+         nontrivial=lambda ln, o: True, level=lvl_facade)
     # relations on implementation outputs: tld_check off => mask irrelevant; literal => mask and tld_check irrelevant
     c_a, _ = vlib.run_both(lib, ctx.snap, al)
     grp = {}
@@ -744,6 +762,46 @@ def check_C13(ctx):
                   'and, for the last validation, with a fresh object; non-trivial = contains a validation', extra_trusted=['libidn2 2.3.3 as IDN oracle', '--wrap=malloc/free/strndup allocation counters'])
 
 # ------------------------------------------------------------------ C15
+SPECIALS = b'()<>@,;:\\[] '
+def code_truth(rc, mode, tld, a, orc_rc, alabel, tldset):
+    """None, or why the reported reason does NOT hold of the input: for every result code a condition the input must meet for
+    the code to be truthful, read off the documented meaning of the code (independent of the model and of the scanners' order of tests)."""
+    if not rc.lstrip('-').isdigit() or int(rc) >= 0: return None
+    rc = int(rc)
+    i = a.rfind(b'@'); L, D = (a[:i], a[i + 1:]) if i >= 0 else (a, None)
+    Dx = alabel if (mode == 3 and orc_rc == 0 and D is not None and not D.startswith(b'[')) else (D or b'')
+    labels = Dx.split(b'.')
+    if len(labels) > 1 and labels[-1] == b'': labels = labels[:-1]          # one root dot
+    def utf8_ok(x):
+        try: x.decode('utf-8', 'strict'); return True
+        except UnicodeDecodeError: return False
+    if rc == -2 and not (mode == 3 and orc_rc != 0): return '"idn internal error" but the IDN library converted the domain (or the mode is not 6531)'
+    if rc == -3 and a != b'': return '"empty email address" for a non-empty input'
+    if rc == -4 and L != b'': return '"local-part is empty" but there are bytes before the last @'
+    if rc == -5 and len(L) <= 64: return '"too long" but the local part has at most 64 octets'
+    if rc == -6 and all(c < 128 for c in L): return '"non-ascii" but the local part is pure ASCII'
+    if rc == -7 and not any(c in SPECIALS + b'#^`{|}~' for c in L): return '"special characters" but the local part has none of ()<>@,;:\\[] SP # ^ ` { | } ~'
+    if rc == -8 and not any(c < 32 or c == 127 for c in L): return '"control characters" but the local part has none'
+    if rc in (-9, -10) and b'"' not in L: return 'a quote complaint but the local part has no DQUOTE'
+    if rc == -11 and b'..' not in L: return '"too many dots" but the local part has no ".."'
+    if rc == -12 and not (L.startswith(b'.') or L.endswith(b'.')): return '"misplaced dot" but the local part neither starts nor ends with a dot'
+    if rc == -13 and not any(c in b' \t\r\n' for c in L): return '"unquoted white space" but the local part has no SP/HT/CR/LF'
+    if rc == -14 and b'\r' not in L: return '"invalid folding" but the local part has no CR'
+    if rc == -15 and utf8_ok(L): return '"invalid UTF-8" but the local part is well-formed UTF-8'
+    if rc == -16 and D: return '"domain is empty" but there are bytes after the last @'
+    if D is None or D == b'': return None
+    if rc == -17 and not any(len(x) > 63 for x in labels): return '"label too long" but no label of the (A-label form of the) domain exceeds 63 octets'
+    if rc == -18 and not any(x.startswith(b'-') or x.endswith(b'-') for x in labels if x): return '"misplaced hyphen" but no label starts or ends with a hyphen'
+    if rc == -19 and not any(x == b'' for x in labels): return '"misplaced delimiter" but the domain has no empty label'
+    if rc == -20 and all(48 <= c <= 57 or 65 <= c <= 90 or 97 <= c <= 122 or c in b'-._' for c in Dx): return '"invalid characters" but the domain consists of letters, digits, hyphens, dots (and underscores) only'
+    if rc == -21 and len(Dx) < 254: return '"domain too long" but it has fewer than 254 octets'
+    if rc == -22 and not all(48 <= c <= 57 or c == 46 for c in Dx): return '"numeric domain" but the domain has a byte other than digits and dots'
+    if rc == -23 and b'.' in Dx: return '"not FQDN" but the domain contains a dot'
+    if rc in (-24, -25) and not D.startswith(b'['): return 'an address-literal complaint but the domain does not start with ['
+    if rc == -25 and b']' in D: return '"bracket unpaired" but the domain contains ]'
+    if rc == -26 and labels and labels[-1].lower() in tldset and b'.' in Dx and not Dx.endswith(b'.'): return '"invalid TLD" but the last label is in the table'
+    return None
+
 def check_C15(ctx):
     step_proof(ctx)
     lib = ctx.snap.lib()
@@ -758,7 +816,7 @@ def check_C15(ctx):
     orc = vlib.idn_oracle(gens.domains_of(addrs))
     el = gens.e_lines(addrs, orc)
     desc = lambda ln, a, b: 'error code differs from the model the C15 theorems are about: implementation %s, model %s' % (a, b)
-    corr(ctx, 'codes(is_*_email)', el, first_fields(2), nontrivial=nontriv_addr, describe=desc)
+    corr(ctx, 'codes(is_*_email)', el, first_fields(2), nontrivial=nontriv_addr, describe=desc, genuine=False)
     # facade: (ret, errcode, message) for every address in every mode with default mask, a zero mask, and invalid rfc values
     al = []
     for a in addrs[::3]:
@@ -770,22 +828,18 @@ def check_C15(ctx):
         al.append('A i s %s x r%d s x %s x f' % (gens.enc_e(b'a@b.org', orc, fault=-304), z, gens.enc_e(b'a@b.org', orc)))
         al.append('A i s %s r%d s x r0 s x f' % (gens.enc_e(b'a@xn--a.ru', orc, fault=-312, buf=1), z))
     corr(ctx, 'facade(ret, errcode, message)', al, lambda ln, o: o, describe=lambda ln, a, b: 'facade outcome differs from model: %s vs %s' % (a, b),
-         nontrivial=lambda ln, o: ' R0' in o)
+         nontrivial=lambda ln, o: ' R0' in o, genuine=False)
     # truth predicates evaluated on implementation outputs alone (a few that need no model)
     c_e, _ = vlib.run_both(lib, ctx.snap, el)
     hist = {}
     nb = 0
+    tldset = set(bytes.fromhex(n) for n, l_, t_ in tab['tld'])
     for l, o in zip(el, c_e):
         f = l.split(' '); rc = o.split(' ')[0]
         hist[rc] = hist.get(rc, 0) + 1
         a = bytes.fromhex(f[3]) if f[3] != '-' else b''
         i = a.rfind(b'@'); L = a[:i] if i >= 0 else a
-        bad = None
-        if rc == '-11' and b'..' not in L: bad = '"too many dots" but the local part has no ".."'
-        if rc == '-5' and len(L) <= 64: bad = '"too long" but the local part has at most 64 octets'
-        if rc == '-6' and all(c < 128 for c in L): bad = '"non-ascii" but the local part is pure ASCII'
-        if rc == '-3' and a != b'': bad = '"empty email address" for a non-empty input'
-        if rc == '-12' and not (L.startswith(b'.') or L.endswith(b'.')): bad = '"misplaced dot" but the local part neither starts nor ends with a dot'
+        bad = code_truth(rc, int(f[1]), f[2] == '1', a, int(f[4]), bytes.fromhex(f[5]) if f[5] != '-' else b'', tldset)
         if bad and nb < 3:
             nb += 1
             relation_violation(ctx, 'C15_truth', {'case': l, 'implementation': o, 'explanation': bad})
@@ -813,7 +867,7 @@ def check_C16(ctx):
     el = gens.e_lines(addrs, orc)
     desc = lambda ln, a, b: 'result record (rc idn_rc is_ipv4/is_ipv6/is_domain lpart domain) differs from the model of theorem C16_result_shapes: %s vs %s' % (a, b)
     for name, lib in (('default-build', ctx.snap.lib()), ('EAV_EXTRA-build', ctx.snap.lib(extra=True))):
-        corr(ctx, name, el, first_fields(5), lib=lib, nontrivial=nontriv_addr, describe=desc)
+        corr(ctx, name, el, first_fields(5), lib=lib, nontrivial=nontriv_addr, describe=desc, level=lvl_email(fields=(2, 3, 4)))
         c_e, _ = vlib.run_both(lib, ctx.snap, el)
         nb = 0
         for l, o in zip(el, c_e):
@@ -1074,7 +1128,7 @@ def check_C05(ctx):
             addrs.append(b'u@' + pre + b'[' + c + b']' + post)
     addrs += [b'u@[' + c + b']' for c in small[::3]] + [b'u@[', b'u@[]', b'u@[1.2.3.4', b'u@]1.2.3.4[', b'u@[[1.2.3.4]]', b'"u@["@[1.2.3.4]']
     el = gens.e_lines(addrs, {})
-    corr(ctx, 'addresses', el, first_fields(3), describe=desc, nontrivial=nontriv_addr)
+    corr(ctx, 'addresses', el, first_fields(3), describe=desc, nontrivial=nontriv_addr, level=lvl_email())
     # the property itself, on implementation outputs
     c_e, _ = vlib.run_both(lib, ctx.snap, el)
     nb = 0
